@@ -13,7 +13,7 @@ QUICK_SHARDS = 4
 RULE = (
     "Hypothesis value trees over the kitchen-sink corpus (15 scalar kinds, enums incl. negative/unlisted numbers, "
     "nested/recursive messages, repeated/packed, maps over every key kind, several oneof groups, proto3 optional, "
-    "wrappers, Timestamp/Duration) x construction route {kwargs, setattr}; plus grammar-generated schemas (vf/schema.py, "
+    "wrappers, Timestamp/Duration) x construction route {kwargs, setattr, lazy = in-place mutation of lazily created containers / sub-messages}; plus grammar-generated schemas (vf/schema.py, "
     "compiled by the current plugin) with PRNG-drawn values (seed drawn by Hypothesis). Oracle: m2=Cls().parse(bytes(m)): "
     "public-observer snapshot(m2)==snapshot(m) (values, selected oneof member, None-ness, nested presence), m2==m, "
     "bytes(m2)==bytes(m); also via FromString. Non-trivial = >=1 field set and a named corner (negative/unlisted "
@@ -37,10 +37,16 @@ def make_eval(c, adapter_kw=None):
         m = guard("build", adapter.build, cls, mi, tree, route)
         b = guard("bytes", bytes, m)
         m2 = guard("parse", cls().parse, b)
-        a = norm(schema, mi, guard("snapshot_m", snap_bp, schema, mi, m))
-        z = norm(schema, mi, guard("snapshot_m2", snap_bp, schema, mi, m2))
+        # a message filled in place through lazily created members does not carry the presence flag of the
+        # intermediate message (C06's business): there, presence = flag OR content, on both sides
+        mode = "sow_or_content" if route == "lazy" else "sow"
+        a = norm(schema, mi, guard("snapshot_m", snap_bp, schema, mi, m, mode))
+        z = norm(schema, mi, guard("snapshot_m2", snap_bp, schema, mi, m2, mode))
         if a != z:
             out.append(("roundtrip_snapshot", f"before={a!r} after={z!r} bytes={b.hex()[:160]}"))
+        want = norm(schema, mi, tree)
+        if route == "lazy" and z != want:
+            out.append(("lazy_built_value_lost", f"decoded={z!r:.300} built from={want!r:.300} bytes={b.hex()[:160]}"))
         eq = guard("eq", lambda: m2 == m)
         if eq is not True:
             out.append(("roundtrip_eq", f"m2==m is {eq!r}; m={m!r:.300} m2={m2!r:.300}"))
@@ -79,7 +85,7 @@ def targets(ctx):
     @st.composite
     def strat(draw):
         case = dict(draw(base))
-        case["route"] = draw(st.sampled_from(["kwargs", "kwargs", "setattr"]))
+        case["route"] = draw(st.sampled_from(["kwargs", "kwargs", "setattr", "lazy"]))
         return case
 
     # ---- programs: grammar-generated schemas compiled by the current plugin, PRNG-drawn values (seed from Hypothesis)
